@@ -20,7 +20,9 @@ use std::sync::{Arc, Mutex};
 const KEYS_PER_GROUP: usize = 6;
 
 fn value_for(version: u64, group: usize, i: usize) -> Vec<u8> {
-	let len = match version % 7 {
+	// versions above 2^40 mark the same-size mode: every value has the same length, so that a key is
+	// overwritten in place again and again
+	let len = if version >> 40 != 0 { 48 } else { match version % 7 {
 		0 => 16,
 		1 => 40,
 		2 => 300,
@@ -34,7 +36,7 @@ fn value_for(version: u64, group: usize, i: usize) -> Vec<u8> {
 				700
 			}
 		},
-	};
+	} };
 	let mut v = Vec::with_capacity(len);
 	v.extend_from_slice(&version.to_le_bytes());
 	v.extend_from_slice(&(group as u32).to_le_bytes());
@@ -75,12 +77,17 @@ pub fn main(args: &[String]) -> i32 {
 	for _ in 0..count {
 		let _ = std::fs::remove_dir_all(&dir);
 		let two_cols = rng.chance(1, 2);
-		let groups = rng.range(11, 14) as usize; // > 64 keys in one index page
+		// same-size mode: few groups, every value 48 bytes, always_flush: the same slots are rewritten in place
+		// by commit after commit while earlier records are being enacted
+		let same_size = rng.chance(1, 3);
+		let groups = if same_size { rng.range(2, 4) as usize } else { rng.range(11, 14) as usize }; // otherwise > 64 keys in one index page
+		let vbase: u64 = if same_size { 1 << 40 } else { 0 };
 		let nversions = rng.range(120, 400);
 		let nreaders = rng.range(2, 4) as usize;
 		let page = [rng.below(256) as u8, rng.below(256) as u8];
 		let mut opts = Options::with_columns(&dir, if two_cols { 2 } else { 1 });
 		opts.salt = Some([0u8; 32]);
+		opts.always_flush = same_size || rng.chance(1, 4);
 		opts.columns[0] = ColumnOptions { uniform: true, ..Default::default() };
 		if two_cols {
 			opts.columns[1] = ColumnOptions { btree_index: true, ..Default::default() };
@@ -96,7 +103,7 @@ pub fn main(args: &[String]) -> i32 {
 		let reads_inflight = Arc::new(AtomicU64::new(0)); // reads that saw a version between completed and started
 		let mut commit_list: Vec<(usize, u64)> = Vec::new(); // (group, version) in commit order
 		let plan: Vec<usize> = (0..nversions).map(|_| rng.below(groups as u64) as usize).collect();
-		let pauses: Vec<u64> = (0..nversions).map(|_| if rng.chance(1, 4) { rng.range(0, 300) } else { 0 }).collect();
+		let pauses: Vec<u64> = (0..nversions).map(|_| if rng.chance(1, if same_size { 12 } else { 4 }) { rng.range(0, 300) } else { 0 }).collect();
 		let mut readers = Vec::new();
 		for r in 0..nreaders {
 			let (db, started, completed, done, failure, cols) = (db.clone(), started.clone(), completed.clone(), done.clone(), failure.clone(), cols.clone());
@@ -163,7 +170,7 @@ pub fn main(args: &[String]) -> i32 {
 		// the writer
 		let mut version_of_group = vec![0u64; groups];
 		for (n, g) in plan.iter().enumerate() {
-			let v = n as u64 + 1;
+			let v = vbase + n as u64 + 1;
 			let mut tx: Vec<(u8, Vec<u8>, Option<Vec<u8>>)> = Vec::new();
 			for (c, bt) in cols.iter().enumerate() {
 				for i in 0..KEYS_PER_GROUP {
